@@ -275,6 +275,13 @@ func run(c Case) (res vh.Result) {
 		return fail("core-crash", "the core died while creating the environment: %s", crash)
 	}
 	if wantCreate {
+		if err != nil && !onlyNoncriticalDeployFault(c) && (strings.Contains(err.Error(), "deployment timed out") || strings.Contains(err.Error(), "DeadlineExceeded")) {
+			// every task was told to come up at once and the simulated agents did so: the 2 s deploy_timeout of the generated workflow
+			// ran out because the machine is busy, which says nothing about the property
+			res.Inconclusive = "deployment timed out although every task deploys: " + err.Error()
+			simworld.Discard()
+			return
+		}
 		if err != nil || env.GetState() != "CONFIGURED" {
 			sig := "create-should-succeed"
 			if c.CallOnly {
